@@ -365,8 +365,10 @@ Fixpoint dec_items (decf : bytes -> res (value * bytes)) (n : nat) (data : bytes
       end
   end.
 
-(* decode() of the primitive universal classes, given constructed flag and content *)
-Definition dec_primitive (tag : Z) (constructed : bool) (content : bytes) : res value :=
+(* decode() of the primitive universal classes, given constructed flag and content: the exception
+   classes of the class methods themselves (BitString.__init__ raises ASN1EncodeError, bytes.decode
+   raises UnicodeDecodeError).  Before 5ce3b74 these escaped from der_decode unchanged. *)
+Definition dec_primitive_old (tag : Z) (constructed : bool) (content : bytes) : res value :=
   if constructed then Err DecodeErr
   else if tag =? 5 then (match content with [] => Ok VNull | _ => Err DecodeErr end)
   else if tag =? 1 then
@@ -386,6 +388,13 @@ Definition dec_primitive (tag : Z) (constructed : bool) (content : bytes) : res 
   else if tag =? 22 then Ok (VIA5 content)
   else (* 6 *)
     match dec_oid content with Some c => Ok (VOid c) | None => Err DecodeErr end.
+
+(* the code of record (5ce3b74): der_decode_partial reports both as ASN1DecodeError *)
+Definition dec_primitive (tag : Z) (constructed : bool) (content : bytes) : res value :=
+  match dec_primitive_old tag constructed content with
+  | Err EncodeErr | Err UnicodeErr => Err DecodeErr
+  | r => r
+  end.
 
 Fixpoint dec (fuel : nat) (data : bytes) : res (value * bytes) :=
   match fuel with
